@@ -53,6 +53,8 @@ def codec_runs(ctx, mode, props, n_quick, n_thorough, depth=(3, 5), name=None):
 def C01(ctx):
     if common_prelude(ctx, ["Props.C01"]):
         codec_runs(ctx, "enc", ["C01"], 4000, 60000)
+        # messages filled by the parser (into an object constructed for another MsgType) and serialized again
+        codec_runs(ctx, "rt", ["C01"], 1500, 20000, name="rt-reser")
     ctx.rules.append("random templates (depth<=3 quick / 5 thorough) and every tests/fix44 message type, random populations through every "
                      "constructor/setter route, long values to cross BodyLength digit boundaries; non-trivial = distinct wire image with > 4 fields")
     return finish(ctx, "proof", "Lean theorem C01_framed over the codec model + model/implementation correspondence on generated messages + spec oracle framedOK on implementation output",
@@ -127,7 +129,7 @@ def sess_runs(ctx, props, n_quick, n_thorough, ln=(30, 60)):
         fold(ctx, res, props + ["SESS"], f"session model vs real Session, seed {s}")
 
 
-REALTIME = {"C06", "C07", "C10", "C14"}
+REALTIME = {"C06", "C07", "C10", "C14", "C16"}
 
 
 def sess_prop(pid, modules, technique, assumptions, nontrivial):
@@ -162,7 +164,7 @@ C16 = sess_prop("C16", ["Props.C16", "Props.SessionSkeleton"], "Lean theorems C1
                 [], "distinct (damaged or not-permitted admin message, logged-before) pairs")
 
 def C19(ctx):
-    if common_prelude(ctx, ["Props.C19"]):
+    if common_prelude(ctx, ["Props.C19", "Props.ConnSkeleton"]):
         n = sizes(ctx, 600, 6000)
         for sd in seeds(ctx):
             res = run_harness(ctx, f"pool-{sd}", "pool", ["-seed", str(sd), "-n", str(n)])
@@ -176,7 +178,7 @@ def C19(ctx):
 
 
 def C05(ctx):
-    if common_prelude(ctx, ["Props.C05"]):
+    if common_prelude(ctx, ["Props.C05", "Props.ConnSkeleton"]):
         sess_runs(ctx, ["C05"], 60, 600)
         n = sizes(ctx, 12, 150)
         for sd in seeds(ctx):
@@ -221,7 +223,7 @@ JUSTIFIED = {"session.Session.errorHandler", "session.Session.logonRequest", "se
 
 def C20(ctx):
     import re as _re
-    if common_prelude(ctx, ["Props.C20"]):
+    if common_prelude(ctx, ["Props.C20", "Props.ConnSkeleton"]):
         fj = os.path.join(ctx.work, "facts.json")
         facts = json.load(open(fj))
         bad = disciplined_locs(facts)
@@ -268,7 +270,7 @@ def C20(ctx):
 
 
 def C04(ctx):
-    if common_prelude(ctx, ["Props.C04"]):
+    if common_prelude(ctx, ["Props.C04", "Props.ConnSkeleton"]):
         n = sizes(ctx, 250, 4000)
         for sd in seeds(ctx):
             res = run_harness(ctx, f"frame-{sd}", "conn", ["-mode", "frame", "-seed", str(sd), "-n", str(n)])
@@ -283,7 +285,7 @@ def C04(ctx):
 
 
 def C13(ctx):
-    if common_prelude(ctx, ["Props.C13"]):
+    if common_prelude(ctx, ["Props.C13", "Props.ConnSkeleton"]):
         # the recorded stuck states of the initiating side (theorems C13_initiator_partial + _finding_witness hold)
         if not ctx.broken:
             ctx.violations.append({"sig": "C13 model initiator forwarder-in-ServeIncoming (C13_initiator_finding_witness)",
@@ -322,7 +324,7 @@ def timer_prop(pid, modules, technique, nontrivial):
     return run
 
 
-C08 = timer_prop("C08", ["Props.C08"], "Lean theorems C08_upper / C08_lower over all refresh/poll sequences of the timer model + constants and formula text regenerated from source + real-time validation", "distinct refresh schedules / send patterns")
+C08 = timer_prop("C08", ["Props.C08", "Props.SessionSkeleton"], "Lean theorems C08_upper / C08_lower over all refresh/poll sequences of the timer model + constants and formula text regenerated from source + real-time validation", "distinct refresh schedules / send patterns")
 C09 = timer_prop("C09", ["Props.C09", "Props.SessionSkeleton"], "Lean theorems C09_live / silence_bound (timer) and C09_probe / disconnect / cancel (session model) + formula text regenerated from source + real-time probe/disconnect scenarios", "distinct inbound arrival patterns")
 
 def C12(ctx):
